@@ -158,7 +158,7 @@ OPS = [
     ("c_insert0", "mid"), ("c_pop",), ("c_reverse",), ("c_set0", "empties"), ("c_assign", ["blank", "n2first"]), ("c_dup",),
     ("ck_set", 0, "CREDIT", ""), ("ck_set", 0, "METER", "0"), ("ck_set", 0, "ATTACKS", "x:y"), ("ck_set", 0, "X", None),
     ("ck_alias", 0, "CREDIT", "NOTES"), ("ck_alias", 0, "X", "STEPSTYPE"), ("ck_alias", 0, "Y", "NOTES2"),
-    ("ck_set", 0, "NOTES", ("fresh", "0000\n0001")), ("ck_set", 0, "NOTES", ""), ("ck_set", 0, "NOTES2", "1"),
+    ("ck_set", 0, "NOTES", ("fresh", "0000\n0001")), ("ck_set", 0, "NOTES", ""), ("ck_set", 0, "NOTES", None), ("ck_set", 0, "NOTES2", "1"),
     ("ck_del", 0, "NOTES"), ("ck_del", 0, "NOTES2"), ("ck_del", 0, "CREDIT"),
     ("ck_pop", 0, "CREDIT"), ("ck_pop", 0, "STEPSTYPE"), ("ck_popitem", 0), ("ck_move_to_end", 0, "STEPSTYPE"), ("ck_move_to_end", 0, "NOTES"),
     ("ck_update", 0, [["METER", "7"], ["Z", ""]]), ("ck_clear", 0),
